@@ -369,9 +369,34 @@ def run(ctx):
     n = ctx.n(300, 6000)
     cases = P.build_cases(ctx, n, gen_kwargs=dict(size=6), nsub_choices=(1, 1, 2, 3), compressed=False,
                           versions=(33, 33, 25, 19), editions=(4, 4, 3), shared=False)
+    # the SAME descriptor list under two master table versions that define one of its elements differently, encoded and
+    # decoded in this one process, both orders (A, B, A): nothing built for one message may serve the other
+    rng0 = ctx.rng
+    vs = [13, 14, 15, 16, 17, 18, 19, 25, 28, 30, 33]
+    pools = {}
+    for v in vs:
+        try:
+            pools[v] = tmplgen.pools(v)
+        except Exception:
+            pass
+    diffs = []
+    vl = sorted(pools)
+    for i, a in enumerate(vl):
+        for b2 in vl[i + 1:]:
+            for e in pools[a].numeric:
+                if e in pools[b2].b and e // 1000 != 31 and pools[a].b[e][2:5] != pools[b2].b[e][2:5] \
+                        and 2 <= pools[a].b[e][4] <= 30 and 2 <= pools[b2].b[e][4] <= 30:
+                    diffs.append((e, a, b2))
+    for _ in range(min(ctx.n(8, 120), len(diffs))):
+        e, a, b2 = rng0.choice(diffs)
+        ids = [1001, e, 1002] if rng0.random() < 0.5 else [101002, e]
+        order = [a, b2, a] if rng0.random() < 0.5 else [b2, a, b2]
+        for v in order:
+            cases.append({'ids': ids, 'version': v, 'edition': 4, 'nsub': rng0.choice([1, 2]), 'compressed': False, 'forced': '-',
+                          'seed': rng0.randrange(1, 2 ** 32), 'maxrep': 3, 'features': {'same-list-across-table-versions': 1},
+                          'shared': False})
     # an element whose reference value was redefined by 203YYY, used under 201 / 202 / 207 (the new reference value
     # takes part in the 207 scaling), and strings with leading blanks / short strings (the JSON text path of the fixpoint)
-    import tmplgen
     rng = ctx.rng
     pl = tmplgen.pools(33)
     for k in range(ctx.n(30, 400)):
